@@ -5,7 +5,8 @@
 From Coq Require Import List ZArith Lia Bool Arith.
 Import ListNotations.
 Require Import C02.Sums C02.Batch C02.Tensor C02.Dense C02.Op C02.Model C02.Spec.
-Require Import C02.ProofsDense C02.ProofsBase C02.ProofsExpand C02.ProofsCtor C02.ProofsMT C02.ProofsMatmul.
+Require Import C02.ProofsDense C02.ProofsBase C02.ProofsExpand C02.ProofsCtor C02.ProofsMT C02.ProofsMatmul C02.ProofsRaw C02.ProofsAdd
+               C02.ProofsMul C02.ProofsProgram.
 
 (* the Gallina broadcast function used everywhere in the model and the specification is torch's documented rule *)
 Theorem C02_broadcast_shapes_is_torch_rule a b r :
@@ -25,12 +26,12 @@ Proof. exact (alg_mT_correct e r). Qed.
 (* SumLinearOperator / AddedDiag / KroneckerProductAddedDiag / LowRankRootAddedDiag / PsdSum / SumKronecker constructors on ANY
    list of operands with broadcastable batch shapes: the object denotes the broadcast sum of its arguments *)
 Theorem C02_sum_constructor k ops r rr cc :
-  Forall wf ops -> ops <> [] -> same_dims_l rr cc ops -> mk_sumc k ops = Ok r -> denote r == dsuml (map denote ops).
+  ops <> [] -> same_dims_l rr cc ops -> mk_sumc k ops = Ok r -> denote r == dsuml (map denote ops).
 Proof. exact (mk_sumc_correct k ops r rr cc). Qed.
 
 (* MatmulLinearOperator(l, r): denotes the (batch-broadcast) matrix product, and is only built when torch.matmul is defined *)
 Theorem C02_matmul_constructor l r m :
-  wf l -> wf r -> mk_matmul l r = Ok m ->
+  mk_matmul l r = Ok m ->
   denote m == dmm (denote l) (denote r) /\ cols l = rows r /\ bcompat (batch l) (batch r) = true.
 Proof. exact (mk_matmul_correct l r m). Qed.
 
@@ -42,10 +43,50 @@ Theorem C02_matmul_partial e o r :
   denote r == dmm (denote e) (denote o).
 Proof. exact (alg_matmul_correct e o r). Qed.
 
+(* operator + operator, the whole class-pair table of the model: the base-class chain (Zero absorbed, Diag -> AddedDiag,
+   Root -> add_low_rank value, else Sum) and the overrides of Dense, Diag, ConstantDiag / Identity, Triangular, Sum / PsdSum /
+   SumKronecker (lists appended), AddedDiag / KroneckerProductAddedDiag / LowRankRootAddedDiag (diagonal operands merged into the
+   diagonal part, others into the linear part), LowRankRoot (-> LowRankRootAddedDiag) and the Kronecker family
+   (-> KroneckerProductAddedDiag / SumKronecker / add_diagonal): the returned object denotes the broadcast sum, and is only
+   returned when the batch shapes broadcast.  [zpath] / [zok] exclude the recorded Zero-absorption defects
+   (C02-zero-add-returns-other, C02-add-zero-returns-self). *)
+Theorem C02_add_partial e o r :
+  wf e -> wf o -> rows o = rows e -> cols o = cols e -> zpath e = true -> zpath o = true -> zok e o = true ->
+  alg_add e (AOp o) = Ok r -> denote r == dadd (denote e) (denote o) /\ bcompat (batch e) (batch o) = true.
+Proof. exact (alg_add_correct e o r). Qed.
+
+(* operator * constant (python number, 0-d tensor): every _mul_constant override of the model except Block* / Interpolated:
+   Diag, ConstantDiag, Identity, KroneckerProductDiag (-> Diag), Triangular (re-dispatch through mul on the factor), Root /
+   LowRankRoot / Chol (positive constants folded into the root: exact when the constant has the integer square roots [sqn]),
+   the Sum family (mapped over the summands), LowRankRootAddedDiag (sign test), Mul, and ConstantMul for the rest: the
+   returned object denotes c * A.  Batches of constants are NOT covered: see the four recorded defects
+   C02-{cdiag,triangular,truth-value,block}-mul-batch-constants. *)
+Theorem C02_mul_constant_partial e c r :
+  wf e -> scalar0 c -> mulc_cov e = true -> sqn (rdepth e) (c0 c) ->
+  alg_mul_constant e c = Ok r -> denote r == dscale (denote e) c.
+Proof. exact (alg_mul_constant_correct0 e c r). Qed.
+
+(* MULTI-STEP PROGRAMS (the unbounded quantifier of the property), by induction on the program: for every program built from
+   the covered operations (see ProofsProgram.covered: leaves of ANY class, +, @, * python number in either order, expand, .mT) in which no step
+   hits a recorded defect cell, if the library-side evaluation (eval_alg: the objects the dispatching methods build, step
+   after step) returns an object r and the same program is defined on dense tensors (eval_dense: torch semantics), then r
+   denotes exactly the dense value.  Operations outside [covered] are listed in design_notes/C02.md. *)
+Theorem C02_program_partial p r D :
+  covered p = true -> safe p = true -> eval_alg p = Ok r -> eval_dense p = Ok D -> denote r == D.
+Proof. exact (program_correct p r D). Qed.
+
 (* hypotheses are satisfiable *)
 Example C02_expand_example :
   exists e B r, wf e /\ bsub (batch e) B = true /\ alg_expand e B = Ok r.
 Proof.
   exists (SumC KAddedDiag [Dense (dzero [] 2 2); Diag (dones [] 2 1)]), [3%nat].
   eexists. repeat split; reflexivity.
+Qed.
+
+Example C02_program_example :
+  exists p r D, covered p = true /\ safe p = true /\ eval_alg p = Ok r /\ eval_dense p = Ok D.
+Proof.
+  exists (PBinT BMul (PBin BAdd (PmT (PBin BMatmul (PExpand (PLeaf (Diag (dones [] 2 1))) [3%nat]) (PLeaf (Dense (dzero [] 2 2)))))
+                               (PLeaf (RootC KRoot (Dense (dones [] 2 1))))) (APy 4)).
+  eexists. eexists. repeat split; reflexivity.
 Qed.
